@@ -380,6 +380,11 @@ pub mod rt {
     /// run `forced[k]` if it is enabled (else divergence is recorded and the
     /// default policy takes over)
     pub forced: Vec<usize>,
+    /// target total order of events (task, per-task event index) coming from
+    /// an SMT model (engine P): at every scheduling point the enabled task
+    /// whose next event comes first in this order runs; tasks with no
+    /// remaining entry run only when nothing else is enabled
+    pub forced_order: Vec<(usize, usize)>,
     /// default policy once `forced` is used up: 0 = keep running the current
     /// task while it is enabled, else lowest enabled id;
     /// 1 = highest enabled id; 2 = rotate
@@ -392,6 +397,7 @@ pub mod rt {
         record_trace: false,
         hash_seed: 0xcbf29ce484222325,
         forced: vec![],
+        forced_order: vec![],
         policy: 0,
       }
     }
@@ -655,7 +661,32 @@ pub mod rt {
         en[0]
       } else {
         let mut choice = None;
-        if g.forced_pos < g.cfg.forced.len() {
+        if !g.cfg.forced_order.is_empty() {
+          // earliest pending entry of the target order among enabled tasks
+          let mut best: Option<(usize, usize)> = None; // (position, task)
+          let mut earliest_any: Option<(usize, usize)> = None;
+          for (pos, (t, tidx)) in g.cfg.forced_order.iter().enumerate() {
+            if *t >= g.tasks.len() || g.tasks[*t].finished || *tidx < g.tasks[*t].nev {
+              continue;
+            }
+            if earliest_any.is_none() {
+              earliest_any = Some((pos, *t));
+            }
+            if en.contains(t) {
+              best = Some((pos, *t));
+              break;
+            }
+          }
+          if let Some((_, t)) = best {
+            choice = Some(t);
+            if let Some((_, t0)) = earliest_any {
+              if t0 != t && g.forced_divergence.is_none() {
+                g.forced_divergence = Some(g.decisions.len());
+              }
+            }
+          }
+        }
+        if choice.is_none() && g.forced_pos < g.cfg.forced.len() {
           let f = g.cfg.forced[g.forced_pos];
           if en.contains(&f) {
             choice = Some(f);
